@@ -7,6 +7,8 @@ R01b  orthogonalisation: for l in k+1..csd: if (support[l] * C == 1) support[l] 
       list taken from the same search result; the search input is support[k], read after any swap
 R01c  a failed std::set<Edge>::insert while unfolding a walk always leads to a not-found result (flag-propagating reachability)
 R01d  MPI: only rank 0 emits
+R02c  a search result is adopted as the phase's cycle only when the search reported success (shared with C02: an adopted failure is
+      emitted as a "cycle" that is no cycle)
 R01e  parity propagation is an exclusive-or with "edge is signed" in update_parities, in the signed search and in the candidate test
 R12b  SPTree::compute_first_in_path labels every node it visits, the root included (the candidate guards that keep cycles simple
       compare these labels)
@@ -18,7 +20,7 @@ from lib import env
 from . import phase
 
 TITLE = 'C01: structure of the phase loop in the five sibling implementations, duplicate-edge rejection, support-vector arithmetic shape.'
-RULES = {'R01a': 5, 'R01b': 10, 'R01c': 4, 'R01d': 2}
+RULES = {'R01a': 5, 'R01b': 10, 'R01c': 4, 'R01d': 2, 'R02c': 3}
 
 
 def run_rules(rep, tier, rules, docs, pos_name='c01_phase.cc', extra=None):
